@@ -487,6 +487,22 @@ def shrink(case):
         # the same element passed as an explicit array (bshape/bc hold what get_structuring_elem returned)
         yield {k: v for k, v in case.items() if k != 'pyarg'}
         case = dict(case)
+    if case.get('size') == 'threshold':
+        # no one-slice-at-a-time deletion on a 65k-pixel case: cut the longest axis to the powers of two the stream is about, then halve
+        shape = list(case['shape'])
+        ax = max(range(len(shape)), key=lambda i: shape[i])
+        rest = int(np.prod(shape)) // shape[ax]
+        A = np.array(case['data'], dtype=object).reshape(shape)
+        for m in (65536 // rest, 32768 // rest, 256, shape[ax] // 2):
+            if 1 <= m < shape[ax]:
+                B = np.take(A, range(m), axis=ax)
+                c = dict(case, shape=list(B.shape), data=[int(x) for x in B.ravel().tolist()])
+                if B.size < 4096:
+                    c.pop('size', None)
+                yield c
+        if case.get('layout', 'C') != 'C':
+            yield dict(case, layout='C')
+        return
     shape, data = case['shape'], case['data']
     A = np.array(data, dtype=object).reshape(shape)
     # drop a slice along an axis
